@@ -7,14 +7,14 @@ from collections import Counter
 
 import iso8601
 
-from ..gen import batch_edge, canon, dt_us, mk_dt, mk_event, rand_data, rand_event_spec, rand_instant, rand_offset, td_us
+from ..gen import BUCKET_ID_FAMILIES, batch_edge, canon, dt_us, mk_dt, mk_event, rand_data, rand_event_spec, rand_instant, rand_offset, td_us
 
 ID = "C14"
 LEVEL = "exploration"
 ANCHOR_FILES = ["aw_datastore/migration.py"]
 REQUIRED_COUNTERS = ["migrations_triggered", "events_compared", "buckets_compared"]
 RULE = ("legacy databases built by the real PeeweeStorage at its default path inside a private XDG_DATA_HOME: 0-6 "
-        "buckets (unicode ids, data dicts, with/without name, explicit creation instants), 0-300 events each "
+        "buckets (unicode ids, look-alike ids that differ only in letter case / wildcards / blanks / composition, data dicts, with/without name, explicit creation instants), 0-300 events each "
         "(generated instants/durations/JSON data, some events recorded two or three times identically; ids overlap across buckets; 100-row chunk boundaries crossed) and a few "
         "per cent with 999-5000 time-clustered, overlapping events (page / batch boundaries of any size up to 5000), in "
         "the normal and the testing profile, sometimes with the OTHER profile's legacy file present too; then "
@@ -49,7 +49,12 @@ def gen_case(rng, ctx):
     nb = rng.choice([0, 1, 1, 2, 3, 6])
     buckets = []
     uid = 0
-    for bid in rng.sample(IDS, nb):
+    ids = rng.sample(IDS, nb)
+    if nb >= 2 and rng.random() < 0.3:
+        # ids that are easily taken for one another (letter case, LIKE wildcards, blanks, Unicode composition, …)
+        fam = rng.choice(BUCKET_ID_FAMILIES[1:])
+        ids = rng.sample(fam, min(nb, len(fam))) + ids[len(fam):]
+    for bid in ids:
         n = rng.choice([0, 1, 2, 5, 40, 99, 100, 101, 250, 300]) if rng.random() < 0.5 else rng.randrange(0, 12)
         big = rng.random() < (0.04 if ctx.tier == "quick" else 0.08)
         if big:
